@@ -158,7 +158,7 @@ def run_trees(chk, cases, configs=("base",), positions=("field", "vfield", "payl
         for ci, ((tree, da, bare), per, src) in enumerate(zip(cases, results, srcs)):
             for lang in langs:
                 r = per[lang]
-                if r["status"] in ("panic", "abort"):
+                if r["status"] in ("panic", "abort", "hang"):
                     chk.extra["skipped_panics"] = chk.extra.get("skipped_panics", 0) + 1
                     continue
                 if r["status"] == "unreadable":
